@@ -615,6 +615,13 @@ func runC01(c *core.Ctx) {
 				if a.Call != nil && a.Call.Name() == "IsInhibited" {
 					return "inhibited", false
 				}
+				// the two topic predicates, when they are not one-expression helpers any more (not inlined): by what they are
+				if a.Call != nil && a.Call.Name() == "hasAnonTopic" {
+					return "anon", false
+				}
+				if a.Call != nil && a.Call.Name() == "hasTopic" {
+					return "topic", false
+				}
 				if a.Op == token.LSS && a.L == "0" && strings.HasPrefix(a.R, "len(") && strings.HasSuffix(a.R, ".handlers)") {
 					return "anon", false
 				}
